@@ -145,7 +145,7 @@ Example ex_cut_mid_record : drain Dx 9 (ex_reader 6) 2 = [SOk 2; SOk 1; SErr ESs
 Proof. vm_compute. reflexivity. Qed.
 (* the hypotheses of close_sends_notify are met by the ideal layer's first unwrap; aclose then sends the notification *)
 Example ex_close :
-  fst (fst (run_op {| f_recheck := false; f_skiplock := false; f_close_flush := false |} true OClose tstate0
+  fst (fst (run_op {| f_recheck := false; f_skiplock := false; f_close_flush := false; f_lazyread := false |} true OClose tstate0
      [AS {| a_meth := MUnwrap; a_arg := 0; a_out := SWantRead; a_wdelta := close_notify Ex |}; AT TSent; AT (TRcvd [])%N;
       AS {| a_meth := MUnwrap; a_arg := 0; a_out := SErr ESslEof; a_wdelta := [] |}]))
   = {| sh := set_feeds shared0 1; closing := true; tr_closing := true |}.
